@@ -288,8 +288,13 @@ fn run_check_auth(n_ctx: u32, n_meta: u32, executors: Option<bool>, calls: [bool
     arb_auth_args();
     let payload = <Hash<32> as Arb>::arb();
     let seq = world().seq;
-    // (harnesses whose payload must be rejected have no witness after the call)
-    witness!(true, "payload_and_state_declared");
+    // Harnesses whose payload must be rejected have no witness after the call; this one sits on a side
+    // branch so that its trace can never coincide with a counterexample's trace (Kani prints one
+    // playback test per distinct trace, and the runner needs the one of the failed assertion).
+    if kani::any() {
+        witness!(true, "payload_and_state_declared");
+        kani::assume(false);
+    }
 
     let r = <TimelockController as CustomAccountInterface>::__check_auth(e.clone(), payload, metas, ctxs);
 
